@@ -1,24 +1,47 @@
-/* Runtime half of property C17 (ownership / lifetime):  one API history per request line, in a fresh context.
+/* Runtime half of property C17 (ownership / lifetime):  one API history per request line, each in a fresh context and a
+ * forked child (pristine heap, exact leak attribution; a sanitizer abort takes down this history only).
  *
  *   <id> life hist <schemaset> <ctxopts> <script>
+ *        <ctxopts> = LY_CTX_* bits; bit 30 forces the LeakSanitizer pass
  *        <script> = op;op;...      op = name:arg:arg...    string args hex ("-" = "", "~" = NULL), ints decimal
  *        node selector (string): "#<k>" = k-th node of the slot in DFS order (mod node count); with % $ * ! @ ^ instead of #
  *        the k-th opaque node / non-key leaf / leaf-list instance or key / any node / inner node / node with metadata;
- *        otherwise a data path
- *   -> <id> ok rc=<per-op LY_ERR, -1 = op not applicable (empty slot, wrong node kind), comma list>
+ *        otherwise a data path (lyd_find_path from the slot's first sibling)
+ *   -> <id> ok rc=<per-op LY_ERR, -1 = op not applicable (empty slot, wrong node kind, guarded precondition), comma list>
  *              drec=<dictionary records after freeing all trees minus baseline> dref=<same for the sum of refcounts>
  *              mid=<n of intermediate all-freed points where the dictionary differed from the baseline>
  *              sfail=<indices of FAILED schema ops that changed the dictionary, or ->
  *              warn=<"not freed from the dictionary" warnings during ly_ctx_destroy> eint=<"Internal error" messages>
  *              onn=<ops that failed but left a non-NULL output> integ=<broken node links seen by the integrity walk>
  *              lost=<(leaf-)list instances their own sibling lookup does not find> live=<slots alive before the final free>
- *              heap=<1 when the byte balance of the heap differs from that of an empty history> leak=<VP_LEAKCHECK(), run when heap=1 or forced by ctxopts bit 30>
- *   <id> life schema <n>           -> <id> ok <hex of built-in schema set n, modules joined by \n\0\n marker "\n----\n">
- *   <id> life printmod <hex name> <fmt>   (fresh context; module printed with lys_print_mem)  -> <id> ok <hex>
+ *              heap=<1 when the byte balance of the heap differs from that of an empty history>
+ *              leak=<VP_LEAKCHECK(), run when heap=1 or forced> leakat=<innermost 3 frames of the first leak's allocation, or ->
+ *   <id> life schema <n>                  -> <id> ok <hex of every module of built-in schema set n>
+ *   <id> life printset <n> <0 YANG|1 YIN> -> <id> ok <hex of every module of set n as printed by lys_print_mem>
+ *   <id> life printmod <hex name> <fmt>   (fresh context; internal module printed with lys_print_mem)  -> <id> ok <hex>
+ *
+ * ops (s,a,b,d,e = slots 0..5; n,m = node selectors):
+ *   schema   ymod:fmt:text  lmod:name:rev  impl:name:features  yinself:name:fmt         (all slots are freed first, F24;
+ *            the dictionary before/after a FAILED load must be equal; the baseline is re-taken after every schema op)
+ *   parse    px:s:fmt:popts:vopts:doc (lyd_parse_data_mem)  pin:... (ly_in_new_memory + lyd_parse_data + ly_in_free)
+ *            pinp:s:n:fmt:popts:vopts:doc (under a parent)  pop:s:fmt:dtype:doc[:ps:pn] (lyd_parse_op)  rt:s:d:fmt:prt:popts:vopts (print + parse)
+ *   new      np:s:opts:path:val  np2:s:n:opts:path:val:anytype  ni/nl/nlv/nt/ntb/na/nad/no:s:n:mod:name:...  nm/nat:s:n:mod:name:val:opt
+ *   change   ct:s:n:val:any  ctb:s:n:bytes:any  cm:s:n:k:val  fm:s:n:k  ac:a:n:b:m[:1]  acs:a:n:vtype:str[:1]
+ *   copy     ds/dd:a:n:b:parent:opts   merge  mt/ms:a:b:opts (DESTRUCT spends slot b on success and failure alike)
+ *   diff     df/dft:a:b:d:opts  da:a:d  dr:d:e  dm:d:e:opts  cmp:a:b:opts
+ *   validate va:s:vopts:diff  vm:s:mod:vopts:diff  vo:s:n:b:dtype:diff  im:s:iopts:diff  imt:s:n:iopts:diff  ll:s
+ *   unlink   ft:s:n  ul:s:n:keep  fs:s:n  us:s:n  fa:s        insert  ic/is/ib/ia:a:dst:b:n[:flag]
+ *   read     fp:s:n:path:output  fx/ex:s:n:xpath  fv:s:n:schemapath:val  pth:s:n:t  di:s:n  avs:s:n  pr:s:fmt:opts  prn:s:n:fmt:opts
+ *   misc     ec (ly_err_clean)  zc:str:k (lydict_insert_zc / insert / dup / remove)  vv:schemapath:val[:s:n] (lyd_value_validate)
+ * After every op an integrity walk touches every node and value of every live tree, checks the sibling / parent links and
+ * looks every (leaf-)list instance up among its siblings, including the former values of changed instances (F19).
  *
  * The dictionary is read white-box (ctx->dict.hash_tab); everything else is the public API.
- * Harness rules: schema-changing ops run only with no live data tree (all slots are freed first, F24); freed pointers
- * are never passed; an op that refers to an empty slot answers -1 without calling into the library. */
+ * Harness rules: schema-changing ops run only with no live data tree; freed pointers are never passed; an op that refers
+ * to an empty slot answers -1 without calling into the library.  Guarded preconditions (answer -1): edits of a list key
+ * inside its list instance, nodes inserted below themselves, siblings duplicated into their own sibling list, whole-tree
+ * calls on an unlinked nested subtree, absolute lyd_new_path next to a nested node, LYD_PARSE_ORDERED, *_CANON values;
+ * known-defective calls that only the witnesses make (flag argument): F61, F65, F72. */
 #define _GNU_SOURCE
 #include <ctype.h>
 #include <stdarg.h>
@@ -173,7 +196,7 @@ static struct lyd_node *ghost[MAXGHOST];
 static int nghost;
 static long base_rec, base_ref;
 static int n_warn, n_eint, n_onn, n_integ, n_lost, n_mid;
-static int debug;
+static int debug;       /* VERIF_LIFE_DEBUG=1: log messages and op trace on stderr, =2: also every slot after every op */
 
 static void
 logcb(LY_LOG_LEVEL level, const char *msg, const char *data_path, const char *schema_path, uint64_t line)
@@ -1128,6 +1151,8 @@ do_op(const struct op *o, int idx)
         int s = A_slot(o, 1);
         struct lyd_node *diff = NULL;
 
+        /* whole-tree calls need top-level data; a slot may hold an unlinked nested subtree */
+        if (!IS("imt") && !IS("vo") && slot[s] && slot[s]->schema && lysc_data_parent(slot[s]->schema)) return -1;
         if (IS("va")) {
             /* va:s:vopts:wantdiff */
             rc = lyd_validate_all(&slot[s], ctx, (uint32_t)A_i(o, 2) & 0x3f, A_i(o, 3) ? &diff : NULL);
@@ -1212,7 +1237,7 @@ do_op(const struct op *o, int idx)
     /* ---------------- insertion ---------------- */
     if (IS("ic") || IS("is") || IS("ib") || IS("ia")) {
         /* i?:a:dsel:b:nsel   insert node (b,nsel) as child of / sibling of / before / after (a,dsel) */
-        int a = A_slot(o, 1), b = A_slot(o, 3), i, ntl = 0;
+        int a = A_slot(o, 1), b = A_slot(o, 3), i, ntl = 0, whole;
         struct lyd_node *dst = sel(a, A_s(o, 2, NULL)), *n = sel(b, A_s(o, 4, NULL)), *tl[64], *it, *h;
 
         if (!dst || !n) return -1;
@@ -1222,7 +1247,12 @@ do_op(const struct op *o, int idx)
         if (is_placed_key(n)) return -1;
         /* F61: lyd_insert_sibling() of the node that is the first sibling of the destination links the node to itself;
          * only the witness (arg 5 = 1) goes there */
-        if (IS("is") && (lyd_first_sibling(dst) == n) && !A_i(o, 5)) return -1;
+        if (IS("is") && (lyd_first_sibling(dst) == n) && (A_i(o, 5) != 1)) return -1;
+        /* F72: a first top-level sibling takes its followers along (lyd_move_nodes); into a sibling list that has
+         * instances of the same list this ties the ring into a cycle or drops the first destination sibling;
+         * only the witness (arg 5 = 2) goes there */
+        whole = (!n->parent && !n->prev->next && n->next) ? 1 : 0;
+        if (whole && (IS("ic") || IS("is")) && (A_i(o, 5) != 2)) return -1;
         LY_LIST_FOR(slot[b], it) {
             if (ntl < 64) tl[ntl++] = it;
         }
@@ -1235,9 +1265,14 @@ do_op(const struct op *o, int idx)
         } else {
             rc = lyd_insert_after(dst, n);
         }
-        if (ring_broken(n)) {
-            /* the node cannot be reached or freed any more: abandon it (shows up as a leak) */
+        if (ring_broken(n) || ring_broken(dst)) {
+            /* the nodes cannot be reached or freed any more: abandon them (shows up as a leak) */
             n_integ++;
+            if (whole || ring_broken(dst)) {
+                slot[a] = NULL;
+                if (a != b) slot[b] = NULL;
+                return rc;
+            }
             slot[a] = home(dst);
             if (a != b) {
                 slot[b] = NULL;
@@ -1586,6 +1621,18 @@ run_history(const char *id, int set, uint32_t ctxopts, char *script)
         }
         rcs[i] = do_op(&ops[i], i);
         tmp_free();
+        if (debug > 1) {
+            int k;
+
+            for (k = 0; k < NSLOT; k++) {
+                char *str = NULL;
+
+                if (slot[k] && !lyd_print_mem(&str, slot[k], LYD_XML, LYD_PRINT_WITHSIBLINGS | LYD_PRINT_SHRINK | LYD_PRINT_WD_ALL)) {
+                    fprintf(stderr, "   rc=%d slot %d: %s\n", rcs[i], k, str ? str : "");
+                }
+                free(str);
+            }
+        }
         integrity();
     }
 
@@ -1669,7 +1716,50 @@ asan_report_cb(const char *rep)
     line[n++] = '\n';
     if (write(2, line, n)) {}
 }
-#  define VP_ASAN_CB() __asan_set_error_report_callback(asan_report_cb)
+/* UndefinedBehaviorSanitizer has no report callback: on death, read the report back from the scratch file */
+void __sanitizer_set_death_callback(void (*cb)(void));
+static void
+death_cb(void)
+{
+    static char rep[32768];
+    char line[1600];
+    ssize_t len;
+    size_t n = 0;
+    const char *p, *q, *e;
+    int frames = 0;
+
+    if (errfd < 0) {
+        return;
+    }
+    len = pread(errfd, rep, sizeof rep - 1, 0);
+    if (len <= 0) {
+        return;
+    }
+    rep[len] = 0;
+    p = strstr(rep, "runtime error: ");
+    if (!p || strstr(rep, "ERROR: AddressSanitizer")) {
+        return;
+    }
+    p += strlen("runtime error: ");
+    n += snprintf(line + n, sizeof line - n, "\nVERIF ERROR: UBSan: ");
+    for (q = p; *q && (*q != '\n') && (n < 160); q++) {
+        line[n++] = ((*q == ' ') || (*q == '\t')) ? '_' : *q;
+    }
+    n += snprintf(line + n, sizeof line - n, " frames=");
+    e = strstr(p, "\n\n");
+    for (q = p; q && (q = strstr(q, " in ")) && (!e || (q < e)) && (frames < 10); ) {
+        q += 4;
+        if (frames++) {
+            line[n++] = ',';
+        }
+        while (*q && (*q != ' ') && (*q != '\n') && (n < sizeof line - 8)) {
+            line[n++] = *q++;
+        }
+    }
+    line[n++] = '\n';
+    if (write(2, line, n)) {}
+}
+#  define VP_ASAN_CB() do { __asan_set_error_report_callback(asan_report_cb); __sanitizer_set_death_callback(death_cb); } while (0)
 # endif
 #endif
 #ifndef VP_ASAN_CB
@@ -1682,7 +1772,7 @@ main(void)
     struct vp_req r = {0};
 
     VP_ASAN_CB();
-    debug = getenv("VERIF_LIFE_DEBUG") ? 1 : 0;
+    debug = getenv("VERIF_LIFE_DEBUG") ? atoi(getenv("VERIF_LIFE_DEBUG")) : 0;
     if (!debug) {
         char tmpl[] = "/var/tmp/api_life_err_XXXXXX";
 
